@@ -1,0 +1,53 @@
+//go:build verif
+
+/*
+ * Copyright 2022 CloudWeGo Authors
+ *
+ * Licensed under the Apache License, Version 2.0 (the "License");
+ * you may not use this file except in compliance with the License.
+ * You may obtain a copy of the License at
+ *
+ *     http://www.apache.org/licenses/LICENSE-2.0
+ *
+ * Unless required by applicable law or agreed to in writing, software
+ * distributed under the License is distributed on an "AS IS" BASIS,
+ * WITHOUT WARRANTIES OR CONDITIONS OF ANY KIND, either express or implied.
+ * See the License for the specific language governing permissions and
+ * limitations under the License.
+ */
+
+package standard
+
+import (
+	"net"
+
+	"github.com/cloudwego/hertz/pkg/network"
+)
+
+// NewConnForVerif wraps c with the production buffered connection (newConn), exactly as the standard
+// transport does after Accept. Only built with the "verif" tag; used by the conformance harness in /verif.
+func NewConnForVerif(c net.Conn, size int) network.Conn {
+	return newConn(c, size)
+}
+
+// VerifNode describes one node of a link buffer (geometry only).
+type VerifNode struct {
+	Cap, Off, Malloc int
+	ReadOnly         bool
+	IsRead, IsWrite  bool
+}
+
+func dumpLinkBuffer(l *linkBuffer) []VerifNode {
+	var out []VerifNode
+	for n := l.head; n != nil; n = n.next {
+		out = append(out, VerifNode{Cap: cap(n.buf), Off: n.off, Malloc: n.malloc, ReadOnly: n.readOnly,
+			IsRead: n == l.read, IsWrite: n == l.write})
+	}
+	return out
+}
+
+// VerifInputNodes returns the geometry of the input link buffer.
+func (c *Conn) VerifInputNodes() []VerifNode { return dumpLinkBuffer(c.inputBuffer) }
+
+// VerifOutputNodes returns the geometry of the output link buffer.
+func (c *Conn) VerifOutputNodes() []VerifNode { return dumpLinkBuffer(c.outputBuffer) }
